@@ -26,7 +26,7 @@ import (
 	"github.com/flamego/flamego/verifharness/internal/rt"
 )
 
-const rule = "case = environment in {development, production, test} x Recovery placed as application middleware, group handler or first route handler x 0..2 recording middleware before it (the outermost sometimes sends status 202 and a few bytes before Next()) x Recovery installed once or twice in a row, before the first request or only after both routes have been requested once x optionally an application that has mapped a ReturnHandler of its own (it only writes lone strings) x optionally a handler that re-maps http.ResponseWriter to a plain embedding wrapper x 1..3 later handlers (route handlers; or the last one as the final action; or all of them as the not-found chain), each of the shape func(Context), func(ResponseWriter, *Request) or http.HandlerFunc and a program over {write a status, write body bytes, Next(), cancel the request context, panic(value) - from ordinary code, from 150 frames further down, from a function whose source file cannot be read or from the last line of a source file that does not end with a newline -, require an unresolvable dependency, write with a registered before-function that panics, WriteHeader with a code the underlying writer rejects by panicking, a Hijack that fails} with panic values of kinds {string, error, runtime error, struct, http.ErrAbortHandler, custom error, integer, typed-nil error, slice, map, struct with a slice field}; GET or HEAD, optionally with Accept or Connection/Upgrade request headers; the environment may change between construction and requests x a sequence of 1..4 requests mixing the panicking route and a healthy one. " +
+const rule = "case = environment in {development, production, test} x Recovery placed as application middleware, group handler or first route handler x 0..2 recording middleware before it (the outermost sometimes sends status 202 and a few bytes before Next()) x Recovery installed once or twice (with a recording middleware between the two), before the first request or only after both routes have been requested once x optionally an application that has mapped a ReturnHandler of its own (it only writes lone strings) x optionally a handler that re-maps http.ResponseWriter to a plain embedding wrapper x 1..3 later handlers (route handlers; or the last one as the final action; or all of them as the not-found chain), each of the shape func(Context), func(Context) error / string (returning nil / the empty string), func(ResponseWriter, *Request) or http.HandlerFunc and a program over {write a status, write body bytes, Next(), cancel the request context, panic(value) - from ordinary code, from 150 frames further down, from a function whose source file cannot be read or from the last line of a source file that does not end with a newline -, require an unresolvable dependency, write with a registered before-function that panics, WriteHeader with a code the underlying writer rejects by panicking, a Hijack that fails} with panic values of kinds {string, error, runtime error, struct, http.ErrAbortHandler, custom error, integer, typed-nil error, slice, map, struct with a slice field}; GET or HEAD, optionally with Accept or Connection/Upgrade request headers; the environment may change between construction and requests x a sequence of 1..4 requests mixing the panicking route and a healthy one. " +
 	"Oracle: nothing escapes ServeHTTP and every request returns (60 s watchdog); an interpreter of the handler programs says what had been sent before the panic: status = that status, or 500 if none; body = the earlier bytes followed by a tail that (development) shows the panic value, (otherwise) shows neither the value nor stack frames; every recording middleware logged its code after Next(); a healthy request answers exactly like on a fresh instance. " +
 	"non-trivial = a case with a panic after a write, or inside a nested Next(), or with a non-string value, or with a failed dependency resolution, or followed by a healthy request; distinct by case text"
 
@@ -54,6 +54,10 @@ type H struct {
 	// "handlerfunc" = http.HandlerFunc (both are wrapped by the built-in fast
 	// invoker and cannot call Next).
 	Shape string `json:"shape,omitempty"`
+	// Ret (shape ""): the handler has a result and returns the empty value of
+	// it: "nilerr" = func(Context) error returning nil, "emptystr" =
+	// func(Context) string returning "" (nothing is rendered for either).
+	Ret string `json:"returns,omitempty"`
 }
 
 type Case struct {
@@ -83,7 +87,7 @@ type Case struct {
 	// OuterWrites: the outermost recording middleware sends status 202 and the
 	// bytes "pre;" before it calls Next(): a status has been sent by then.
 	OuterWrites bool `json:"outer_writes,omitempty"`
-	// Twice: Recovery is installed twice in a row.
+	// Twice: Recovery is installed twice, with a recording middleware between the two.
 	Twice bool `json:"recovery_twice,omitempty"`
 	// Late (Recovery as application middleware only): the routes are declared
 	// and the healthy one is requested once before Recovery is installed with Use.
@@ -330,7 +334,7 @@ func build(c Case) *app {
 	a := &app{f: flamego.NewWithLogger(io.Discard), reqHdr: c.ReqHdr}
 	if c.OwnReturn {
 		a.f.Map(flamego.ReturnHandler(func(ctx flamego.Context, vals []reflect.Value) {
-			if len(vals) == 1 && vals[0].Kind() == reflect.String {
+			if len(vals) == 1 && vals[0].Kind() == reflect.String && vals[0].Len() > 0 {
 				_, _ = ctx.ResponseWriter().Write([]byte(vals[0].String()))
 			}
 		}))
@@ -411,6 +415,10 @@ func build(c Case) *app {
 			// the framework panics instead (ops before "inj" are ignored by the
 			// generator for such handlers)
 			hs = append(hs, func(ctx flamego.Context, _ *unmapped) { body(ctx) })
+		} else if h.Ret == "nilerr" {
+			hs = append(hs, func(ctx flamego.Context) error { body(ctx); return nil })
+		} else if h.Ret == "emptystr" {
+			hs = append(hs, func(ctx flamego.Context) string { body(ctx); return "" })
 		} else {
 			hs = append(hs, body)
 		}
@@ -427,7 +435,13 @@ func build(c Case) *app {
 	}
 	rec := []flamego.Handler{flamego.Recovery()}
 	if c.Twice {
-		rec = append(rec, flamego.Recovery())
+		// (with a recording middleware between the two: it is placed before a
+		// Recovery, and completes its code after Next() like any other)
+		rec = append(rec, func(ctx flamego.Context) {
+			a.log = append(a.log, "pre between")
+			ctx.Next()
+			a.log = append(a.log, "post between")
+		}, flamego.Recovery())
 	}
 	switch c.RecoveryAt {
 	case "use":
@@ -633,6 +647,9 @@ func checkCase(c Case) (out evid.Outcome) {
 				return fail(out, "outer-middleware", "recording middleware %d did not complete its code after Next(): log %v; %s", k, a.log, desc)
 			}
 		}
+		if contains(a.log, "pre between") && !contains(a.log, "post between") {
+			return fail(out, "outer-middleware", "the recording middleware between the two Recovery handlers did not complete its code after Next(): log %v; %s", a.log, desc)
+		}
 		if which == "ok" {
 			if got.status != fresh.status || got.body != fresh.body {
 				return fail(out, "unhealthy-after-panic", "healthy request answered %d %q, a fresh instance answers %d %q; %s", got.status, got.body, fresh.status, fresh.body, desc)
@@ -815,6 +832,9 @@ func genCase(t *rapid.T) Case {
 					h.Ops = append(h.Ops, "inj")
 				}
 			}
+		}
+		if h.Shape == "" && rapid.IntRange(0, 3).Draw(t, "ret") == 0 {
+			h.Ret = []string{"nilerr", "emptystr"}[rapid.IntRange(0, 1).Draw(t, "retk")]
 		}
 		c.After = append(c.After, h)
 	}
